@@ -7,7 +7,8 @@ one() {
   kind=$(jq -r .kind $m/meta.json); prop=$(jq -r .property $m/meta.json)
   d=$(mktemp -d /tmp/cc-XXXX); rsync -a --exclude .git /repo/ $d/
   (cd $d && patch -p1 -s < $m/patch.diff) || { echo "$id PATCH-FAILED"; rm -rf $d; return; }
-  fired=$(${UTILCHECK:-/verif/bin/utilcheck} -repo $d -prop all -no-evidence 2>&1 | grep -a '^VIOLATION' | sed 's/VIOLATION property=\([A-Z0-9]*\).*/\1/' | sort -u | tr '\n' ' ')
+  arch=$(jq -r '.demo_env.DEMO_GOARCH // empty' $m/meta.json)
+  fired=$(GOARCH=${arch:-$(go env GOARCH)} ${UTILCHECK:-/verif/bin/utilcheck} -repo $d -prop all -no-evidence 2>&1 | grep -a '^VIOLATION' | sed 's/VIOLATION property=\([A-Z0-9]*\).*/\1/' | sort -u | tr '\n' ' ')
   rm -rf $d
   echo "$id $kind $prop | fired: ${fired:-NONE}"
 }
